@@ -441,6 +441,45 @@ def convergence_oracle(args):
     return None
 
 
+def qudit_oracle(args):
+    """chains of three-level sites (Bose-Hubbard, transmon-resonator chains) with the default, unconstrained bond dimension: norm, energy and
+    final state vs exp(-iHT) of the operator's own dense matrix (site 0 leftmost, as C07 establishes for the builders)"""
+    from mqt.yaqs import simulator
+    from mqt.yaqs.core.data_structures.networks import MPO, MPS
+    from mqt.yaqs.core.data_structures.simulation_parameters import AnalogSimParams, EvolutionMode, Observable
+
+    L, d, T = args["L"], 3, args.get("T", 1.0)
+    if args["ham"] == "bose":
+        H = MPO.bose_hubbard(length=L, local_dim=d, omega=0.8, hopping_j=0.7, hubbard_u=0.5)
+    else:
+        H = MPO.coupled_transmon(length=L, qubit_dim=d, resonator_dim=d, qubit_freq=1.0, resonator_freq=0.9, anharmonicity=-0.2, coupling=0.6)
+    hd = np.asarray(H.to_matrix())
+    start = args["start"]
+    v0 = dense.mps_dense(MPS(L, state="basis", basis_string=start, physical_dimensions=[d] * L))
+    ref = dense.evolve(hd, v0, T)
+    e0 = dense.expect(v0, hd)
+    errs = []
+    dts = (0.1, 0.05) if args["mode"] == "TDVP" else (0.05, 0.025)
+    for dt in dts:
+        # threshold far below every weight that matters: a rank-adaptive integrator started from a product state grows new directions
+        # from weights of order dt^2 and smaller, which the default threshold (1e-6) would prune again at every step
+        par = AnalogSimParams([Observable(start)], elapsed_time=T, dt=dt, order=args["order"], sample_timesteps=False, get_state=True, threshold=1e-13,
+                              show_progress=False, evolution_mode=EvolutionMode.BUG if args["mode"] == "BUG" else EvolutionMode.TDVP)
+        with common.time_limit(300):
+            simulator.run(MPS(L, state="basis", basis_string=start, physical_dimensions=[d] * L), H, par, None, parallel=False)
+        vT = dense.mps_dense(par.output_state)
+        if abs(np.linalg.norm(vT) - 1) > 1e-6:
+            return f"{args['ham']} L={L} (d=3) {args['mode']} order {args['order']}: norm of the final state is {np.linalg.norm(vT):.8f}"
+        if args["mode"] == "TDVP" and abs(dense.expect(vT, hd) - e0) > 1e-5 * max(1.0, np.linalg.norm(hd, 2)):
+            return f"{args['ham']} L={L} (d=3) order {args['order']}: energy drifts from {e0:.8f} to {dense.expect(vT, hd):.8f} (dt={dt}, default bond limits)"
+        errs.append(dense.up_to_phase(vT, ref))
+    tol = 2e-3 if args["mode"] == "TDVP" else 6e-2
+    if errs[1] > tol or (args["mode"] == "BUG" and errs[0] > 1e-5 and errs[1] > errs[0] / 1.5):
+        return (f"{args['ham']} L={L} (d=3) {args['mode']} order {args['order']}: final state is {errs[1]:.3e} away from exp(-iHT)|psi0> at dt={dts[1]} "
+                f"({errs[0]:.3e} at dt={dts[0]}) with the default bond limit, start {start}")
+    return None
+
+
 def search(ctx):
     plan = []
     states = ["zeros", "x+", "Neel", "wall", "y+", "ones"]
@@ -457,6 +496,21 @@ def search(ctx):
     for k in range(ctx.scale(1, 4)):
         plan.append(dict(seed=int(ctx.rng.integers(0, 2**31)), L=8, ham="pauli", state=["Neel", "x+"][k % 2], mode="TDVP", order=1 + k % 2, T=1.2, wide=True))
         ctx.count("wide_chains")
+    for k, (hamk, L, start) in enumerate([("bose", 4, "1010"), ("transmon", 3, "101"), ("bose", 3, "201"), ("transmon", 4, "1010")][: 3 if ctx.quick else 4]):
+        a = dict(ham=hamk, L=L, start=start, order=1 + k % 2, mode="TDVP" if k != 2 else "BUG")
+        if a["mode"] == "BUG":
+            a["order"] = 2
+        try:
+            why = qudit_oracle(a)
+        except common.HardTimeout:
+            ctx.notes.append("qudit oracle timed out")
+            continue
+        except Exception as e:  # noqa: BLE001
+            why = f"simulator.run raised {type(e).__name__}: {e}"
+        ctx.case(nontrivial_key=("qudit", hamk, L, start))
+        ctx.count("qudit_chains")
+        if why:
+            ctx.violation("convergence:qudit", why, {"oracle": "qudit", "args": a})
     for a in plan:
         if a["mode"] == "BUG":
             a["order"] = 2
@@ -477,6 +531,8 @@ def replay(ctx, data):
     rp = data.get("replay", data)
     if rp.get("oracle") == "conv":
         return convergence_oracle(rp["args"])
+    if rp.get("oracle") == "qudit":
+        return qudit_oracle(rp["args"])
     if rp.get("oracle") == "budget":
         steps = trace_sweep(rp["dims"], rp["cap"])[0]
         st = sum((1 if s[2] else -1) for s in steps if s[0] == "S") + 2 * sum(1 for s in steps if s[0] == "P")
